@@ -420,5 +420,14 @@ def _up(repo, n):
         p = repo.parent(p)
 
 
+def r16_14(ctx):
+    """R16.14 the saved file says what the session holds: every return of _escape() is the full escape chain (C02 R02.9) - a fast
+    path for strings without a quote writes a backslash bare, the re-load after the save collapses it, and `nothing needs
+    saving` is reported for a file that lost the typed value."""
+    from . import c02
+    from .common import delegate
+    delegate(ctx, c02.r02_9, lambda c: c.startswith("_escape/"))
+
+
 def rules():
-    return [("R16.13", r16_13, 2), ("R16.12", r16_12, 8), ("R16.11", r16_11, 5), ("R16.10", r16_10, 2), ("R16.9", r16_9, 2), ("R16.8", r16_8, 2), ("R16.7", r16_7, 3), ("R16.1", r16_1, 2), ("R16.2", r16_2, 11), ("R16.3", r16_3, 3), ("R16.4", r16_4, 2), ("R16.5", r16_5, 6), ("R16.6", r16_6, 4)]
+    return [("R16.14", r16_14, 1), ("R16.13", r16_13, 2), ("R16.12", r16_12, 8), ("R16.11", r16_11, 5), ("R16.10", r16_10, 2), ("R16.9", r16_9, 2), ("R16.8", r16_8, 2), ("R16.7", r16_7, 3), ("R16.1", r16_1, 2), ("R16.2", r16_2, 11), ("R16.3", r16_3, 3), ("R16.4", r16_4, 2), ("R16.5", r16_5, 6), ("R16.6", r16_6, 4)]
